@@ -612,11 +612,22 @@ def prefix_free(names, n):
 def gen_level(rng, T, app, opts):
     lv = app.levels[T]
     names = []
-    def fresh_name(pool):
+    leafnames = []
+    def fresh_name(pool, leaf=False):
+        # a leaf whose name extends the name of another leaf of the table ("gain", "gainmode"):
+        # whole-name comparisons must not be replaced by prefix comparisons anywhere
+        if leaf and leafnames and rng.random() < opts.get("p_prefix_name", 0.0):
+            n = rng.choice(leafnames) + rng.choice(["x", "mode", "q"])
+            if all(not m.startswith(n) for m in names):
+                names.append(n)
+                leafnames.append(n)
+                return n
         for _ in range(50):
             n = rng.choice(pool)
             if prefix_free(names, n):
                 names.append(n)
+                if leaf:
+                    leafnames.append(n)
                 return n
         n = "n%dq" % len(names)
         names.append(n)
@@ -644,7 +655,7 @@ def gen_level(rng, T, app, opts):
         lv.ptr_init = rng.random() < 0.7
     leaves = []
     for fid in chosen:
-        p = Leaf(fid, fresh_name(STEMS))
+        p = Leaf(fid, fresh_name(STEMS, leaf=True))
         k = p.kind
         if p.is_array():
             p.n = rng.choice([1, 2, 3, 4, 8])
